@@ -175,6 +175,22 @@ MovesSubq(h, kn) ==
         \o (IF t.part # <<>> THEN <<MSummarize(i, <<KV("s", Agg("sum", CN("b")))>>)>> ELSE <<>>)
 
 ---------------------------------------------------------------------------
+(* a hidden column and a visible column of the same name carried through a subquery, the hidden one referenced behind it *)
+MovesHidSub(h, kn) ==
+    LET i  == Len(h)
+        t  == h[i]
+        has(n) == n \in VisNames(t)
+        c(n) == Col(ByName(t)[n])
+        olda == Col(h[1].vis[1])                       \* the source's first column through its original reference
+    IN  (IF has("a") /\ h[1].vis[1] \in VisSet(t) /\ Len(t.vis) >= 2 THEN <<MDrop(i, <<olda>>)>> ELSE <<>>)
+        \o (IF ~has("a") /\ has("b") THEN <<MMutate(i, <<KV("a", Fn2("mul", c("b"), LitI(10)))>>)>> ELSE <<>>)
+        \o (IF has("a") /\ h[1].vis[1] \in VisSet(t) /\ has("b") THEN <<MMutate(i, <<KV("a", Fn2("mul", c("b"), LitI(10)))>>)>> ELSE <<>>)
+        \o (IF t.part = <<>> THEN <<MSlice(i, 3, 0)>> ELSE <<>>)
+        \o <<MAlias(i, t.name, TRUE)>>
+        \o (IF h[1].vis[1] \in Scope(t) THEN <<MFilter(i, <<Fn2("ge", olda, LitI(2))>>), MMutate(i, <<KV("probe", olda)>>)>> ELSE <<>>)
+        \o (IF has("b") THEN <<MFilter(i, <<Fn2("gt", c("b"), LitI(0))>>)>> ELSE <<>>)
+
+---------------------------------------------------------------------------
 (* tall tables: a short alphabet that is cheap to evaluate on > 100 rows *)
 MovesTall(h, kn) ==
     LET i == Len(h)
